@@ -226,7 +226,9 @@ func classify(flags map[string]string, symptom, err, mismatch string, cmdsOfSeco
 	switch {
 	case flags["nestA"] == "1" || flags["nestB"] == "1":
 		return "nested_address_groups"
-	case flags["sgchg"] == "1" && (err == "delete-referenced-service" || err == "" && (mismatch == "srv" || onlySGrp)):
+	// F-C03a: the changed members of a same-named service-group were SENT (with set, which merges)
+	case flags["sgchg"] == "1" && flags["sgsent"] == "1" &&
+		(err == "delete-referenced-service" || err == "" && (mismatch == "srv" || onlySGrp)):
 		return "service_group_same_name_members_differ"
 	case flags["mixed"] == "1" && (err == "dangling-reference" || err == "delete-referenced-group" ||
 		err == "" && (mismatch == "src" || mismatch == "dst" || onlyLists)):
@@ -441,6 +443,7 @@ func (c *checker) runCase(in caseInput, deep bool) (devVsys []panos.VerifVsys, r
 		b := *findVsys(p.B, name)
 		fl := flags[name]
 		cmds := per[name]
+		fl = withSent(fl, cmds)
 		if fl["wfA"] != "1" || fl["wfB"] != "1" {
 			res.Count("oracle-skipped:not-wellformed")
 			continue
@@ -520,6 +523,7 @@ func (c *checker) resume(in caseInput, name string, a, b panos.VerifVsys, cmds [
 		if !okk {
 			continue
 		}
+		fl = withSent(fl, perk[name])
 		if f := flk[name]; f != nil {
 			// the class is decided on the original pair and on the hybrid pair
 			for _, key := range []string{"nestA", "nestB", "sgchg", "uniq", "mixed"} {
@@ -553,6 +557,16 @@ func (c *checker) resume(in caseInput, name string, a, b panos.VerifVsys, cmds [
 			res.Count("resume:converged")
 		}
 	}
+}
+
+// withSent records whether the plan re-sends the members of a service-group.
+func withSent(fl map[string]string, cmds []string) map[string]string {
+	for _, c := range cmds {
+		if strings.HasPrefix(c, "setsgrp:") {
+			return mergeFlag(fl, "sgsent")
+		}
+	}
+	return fl
 }
 
 func mergeFlag(fl map[string]string, key string) map[string]string {
